@@ -274,8 +274,10 @@ MakeOutput ==
 (* A database object (SymdelDB / LookupDB) is queried again with another   *)
 (* query list: the index is the one built before.                          *)
 (***************************************************************************)
-NewLookup(q) == /\ phase = "done" /\ inp.two /\ inp.engine \in {"symdel", "hash"}
-                /\ inp' = [inp EXCEPT !.seqs2 = q]
+\* (LookupDB.lookup takes max_edits per lookup; SymdelDB fixes it when the index is built)
+NewLookup(q, k2) == /\ phase = "done" /\ inp.two /\ inp.engine \in {"symdel", "hash"}
+                /\ (inp.engine = "symdel" => k2 = inp.k)
+                /\ inp' = [inp EXCEPT !.seqs2 = q, !.k = k2]
                 /\ phase' = "built"
                 /\ cand' = {} /\ trip' = {} /\ ntrip' = 0 /\ dense' = <<>>
                 /\ nlook' = nlook + 1
@@ -283,7 +285,7 @@ NewLookup(q) == /\ phase = "done" /\ inp.two /\ inp.engine \in {"symdel", "hash"
 
 Next == \/ CheckInput \/ SdBuild \/ SdBuilt \/ SdSelfJoin \/ SdLookup
         \/ HbBuild \/ HbLookup \/ KdEncodeBall \/ KdFilter \/ MakeOutput
-        \/ (nlook < MaxLookups /\ \E q \in ListsUpTo(MaxN2) : NewLookup(q))
+        \/ (nlook < MaxLookups /\ \E q \in ListsUpTo(MaxN2) : \E k2 \in Ks : NewLookup(q, k2))
 
 Spec == Init /\ [][Next]_vars
 
